@@ -114,7 +114,7 @@ func c04Components(tier string, cols int) []any {
 	if cols == 3 {
 		return []any{"", "|", "a", nil}
 	}
-	c := []any{"", "|", "\\", "a", "|a", "a|", "\\|", us, nil}
+	c := []any{"", "|", "\\", "a", "|a", "a|", "\\|", us, nil, c04Missing}
 	if tier == "thorough" {
 		c = append(c, "||", "\\N", "N", "\x00NULL", "a"+us+"a", us+us, "\\\\", "|\\")
 	}
